@@ -316,7 +316,7 @@ func runAppChild(dir string, sc *appScript, e twinEnv, tag string) ([]blockOut, 
 	cmd := exec.Command(os.Args[0], "-test.run", "^TestCorr$", "-test.count=1")
 	var env []string
 	for _, kv := range os.Environ() {
-		if strings.HasPrefix(kv, ffName+"=") || strings.HasPrefix(kv, "TZ=") || strings.HasPrefix(kv, "GOMAXPROCS=") || strings.HasPrefix(kv, "C08_") {
+		if isEnvName(kv) || strings.HasPrefix(kv, "TZ=") || strings.HasPrefix(kv, "GOMAXPROCS=") || strings.HasPrefix(kv, "C08_") {
 			continue
 		}
 		env = append(env, kv)
@@ -328,9 +328,7 @@ func runAppChild(dir string, sc *appScript, e twinEnv, tag string) ([]blockOut, 
 	if e.Restart {
 		env = append(env, "C08_RESTART=1")
 	}
-	if e.FlagSet {
-		env = append(env, ffName+"="+e.FlagValue)
-	}
+	env = append(env, flagEnv(e)...)
 	cmd.Env = env
 	out, err := cmd.CombinedOutput()
 	if err != nil {
